@@ -498,7 +498,7 @@ class ReconnH(explore.Harness):
             if prev is not None and prev["outcome"] and prev["outcome"][0] == "ok" and prev["end"] is not None and not any(abs(t - a["t"]) < 1e-9 for t, _ in self.trigger_times + self.env_marks):
                 pc = self.net.conns[prev["outcome"][2]]
                 if getattr(pc, "behaviour", None) == "wrong-id" and prev["outcome"][1] in a["hosts"] and len(a["hosts"]) > 1 \
-                        and a["t"] - prev["end"] < 0.1 - 1e-9:
+                        and a["t"] - prev["end"] < 0.1 - 1e-9 and set(a["hosts"]) == set(prev["hosts"]):  # (a changed address set clears the exclusions)
                     self.viol.append(("c10:immediate-retry-returns-to-the-address-that-just-answered-as-another-accessory", {"address": prev["outcome"][1], "attempt_hosts": a["hosts"], "t": a["t"]}))
             if not first_of_round or not self.p.get("with_description", True):
                 continue
@@ -630,9 +630,16 @@ class ReconnH(explore.Harness):
 
         # (per connector run: a peer drop / trigger legitimately starts a fresh run at the same virtual instant)
         trig_instants = {round(t, 9) for t, _ in self.trigger_times + self.env_marks}
-        run_starts = [c[2] for c in self.connector_ids] + [len(atts)]
-        for lo, hi in zip(run_starts, run_starts[1:]):
-            per = Counter(round(a["t"], 9) for a in atts[lo:hi])
+        groups, g_ = [], []
+        for a_ in atts:
+            if g_ and a_.get("task") != g_[-1].get("task"):
+                groups.append(g_)
+                g_ = []
+            g_.append(a_)
+        if g_:
+            groups.append(g_)
+        for grp in groups:
+            per = Counter(round(a["t"], 9) for a in grp)
             for t, n in per.items():
                 if n > 2 * nh and t not in trig_instants:
                     out.append(("c10:busy-loop-connection-calls-at-one-instant", {"t": t, "calls": n, "hosts": nh}))
@@ -641,11 +648,16 @@ class ReconnH(explore.Harness):
         trig = sorted(t for t, _ in self.trigger_times)
         # (a caller asking for the connection is no reason to hurry: only announcements, drops and close excuse a gap from the back-off rule)
         marks = sorted([m for m in self.trigger_times if not m[1].startswith(("ensure", "cancel-ensure", "app-req"))] + self.env_marks + ([(self.closed_at, "close")] if self.closed_at is not None else []))
-        bounds = [c[2] for c in self.connector_ids[1:]] + [len(atts)]
-        start = self.connector_ids[0][2] if self.connector_ids else 0
-        for b in bounds:
-            run = atts[start:b]
-            start = b
+        # one connector run = the consecutive attempts made by one connector task
+        runs, cur_ = [], []
+        for a_ in atts:
+            if cur_ and a_.get("task") != cur_[-1].get("task"):
+                runs.append(cur_)
+                cur_ = []
+            cur_.append(a_)
+        if cur_:
+            runs.append(cur_)
+        for run in runs:
             gaps = []
             for x, y in zip(run, run[1:]):
                 if x["end"] is None:
